@@ -12,8 +12,12 @@ Local Open Scope Z_scope.
 Theorem c01_legalb_decides_legal : forall c, legalb c = true <-> legal c.
 Proof. exact legalb_correct. Qed.
 
-(* [F] when legalization raises an error (no row / not all cells placed) the circuit is
-   exactly as it was, for every cell order: export happens after run() returned *)
+(* [by construction of the model + validated per run] when the MODEL returns NoRow / NotAllPlaced the
+   circuit is as it was: `circuit_after` is DEFINED as `match .. | LegOk c' => c' | _ => c`, so this theorem
+   restates the definition (the modelling decision "export happens after run() returned").  The C++ has
+   further exceptions that the model does not have (AbacusLegalizer::check, LegalizerBase::check,
+   params.check(), "Circuit does not match" of the export) and one throwing path AFTER exportPlacement
+   (size-update test in the callback, place_detailed.cpp:54-60); only the tie speaks about those. *)
 Theorem c01_error_leaves_circuit : forall c order,
   (forall c', legalize_circuit c order <> LegOk c') -> circuit_after c order = c.
 Proof. exact circuit_after_error. Qed.
@@ -23,7 +27,8 @@ Theorem c01_success_frame : forall c order c',
   legalize_circuit c order = LegOk c' -> rows c' = rows c /\ Forall2 same_frame (cells c) (cells c').
 Proof. exact legalize_circuit_frame. Qed.
 
-(* [F, checked model] legality of the result of the algorithm run under the proved checker,
+(* [checked model: filters by legalb, then concludes legal -- a checker against itself, kept for
+   reference only] legality of the result of the algorithm run under the proved checker,
    for EVERY circuit (no domain restriction); the correspondence evaluates legalb on the
    model's and on the implementation's result of every case.  For the RAW algorithm see
    c01_legalize_circuit_legal below (proved on the domain std_design; refuted outside it
@@ -138,7 +143,10 @@ Proof. exact legalize_sound. Qed.
    movable cells have positive placed width, placed height a positive multiple of rh and
    are not turned unless they have no polarity.  Fixed cells and obstructions are
    arbitrary.  Missing for the full statement: circuits outside std_design; the last
-   condition cannot be dropped (c01_turned_polarised_cell_refuted). *)
+   condition cannot be dropped (c01_turned_polarised_cell_refuted).  All arithmetic is over
+   unbounded Z: no magnitude hypothesis, hence nothing about `int` wrap-around of the C++ for
+   coordinates near INT_MAX (generated inputs stay within about 2^16).  The model's outcomes
+   are Ok / NoRow / NotAllPlaced only. *)
 Theorem c01_legalize_circuit_legal : forall c order c' rh,
   std_design c rh -> legalize_circuit c order = LegOk c' -> legal c'.
 Proof. exact legalize_circuit_legal. Qed.
